@@ -412,12 +412,19 @@ def root_of(op):
 
 
 def scan_users(op):
-    """Ops (anywhere under the root of `op`) that have a result of `op` as operand - by scanning operands."""
+    """Ops (anywhere in the region holding `op`, nested regions included) that have a result of `op` as operand -
+    found by scanning operands, not through the use lists."""
     res = {id(r) for r in op.results}
     if not res:
         return []
     out = []
-    stack = [root_of(op)]
+    # a value is only visible in the region that holds its defining op (and regions nested in it)
+    blk = op.parent
+    reg = blk.parent if blk is not None else None
+    if reg is None:
+        stack = [root_of(op)]
+    else:
+        stack = [o for b in reg.blocks for o in b.ops]
     while stack:
         o = stack.pop()
         if any(id(x) in res for x in o.operands):
